@@ -1,4 +1,10 @@
 mod bddgen;
+mod cnfgen;
+mod cnfstream;
+mod optstream;
+mod ordstream;
+mod tdstream;
+mod upstream;
 mod common;
 mod ringstream;
 mod rng;
@@ -22,7 +28,9 @@ fn arg<T: std::str::FromStr>(args: &[String], name: &str, default: T) -> T {
 
 fn main() {
     // panics are outcomes, not crashes: silence the default hook
-    std::panic::set_hook(Box::new(|_| {}));
+    if std::env::var("HARNESS_DEBUG").is_err() {
+        std::panic::set_hook(Box::new(|_| {}));
+    }
     let args: Vec<String> = std::env::args().collect();
     if args.len() < 2 {
         eprintln!("usage: harness <stream> --seed=S --cases=N [--from=I] [--maxvars=K] [--maxops=K]");
@@ -51,6 +59,11 @@ fn main() {
                 vec![bddgen::bdd_line(&prog, cache, tbl)]
             }
             "sdd" => vec![sddstream::sdd_line(&mut rng, maxvars, maxops)],
+            "up" => vec![upstream::up_line(&mut rng, maxvars, maxops)],
+            "td" => vec![tdstream::td_line(&mut rng, maxvars)],
+            "ord" => ordstream::ord_lines(&mut rng, idx, maxvars),
+            "cnf" => cnfstream::cnf_lines(&mut rng, idx, maxvars, maxops),
+            "opt" => optstream::opt_lines(&mut rng, maxvars, maxops),
             "ring" => ringstream::ring_lines(&mut rng, idx),
             "tbl" => vec![tblstream::tbl_line(&mut rng, maxops)],
             "lru" => vec![tblstream::lru_line(&mut rng, maxops)],
